@@ -158,3 +158,53 @@ func castObserveResUnwrap(t castT, depth int) string {
 	inner := castTypeTests(t, cur) + fmt.Sprintf(`if let x <- %s as? @%s { out.append(%s); destroy x } else { out.append("inner not T"); destroy %s }`, cur, t.Type, t.BackShow, cur)
 	return open + inner + closeS
 }
+
+// ---------------------------------------------------------------------------
+// transaction block-presence grid
+
+type txGridCase struct {
+	Name    string
+	Src     string
+	Prepare bool
+}
+
+func txGrid34() []txGridCase {
+	var out []txGridCase
+	for _, prep := range []bool{false, true} {
+		for _, pre := range []string{"absent", "true", "false"} {
+			for _, exe := range []bool{false, true} {
+				for _, post := range []string{"absent", "true", "false"} {
+					var sb strings.Builder
+					sb.WriteString("import K from 0x1\ntransaction {\n")
+					if prep {
+						sb.WriteString("  let acct: auth(Storage) &Account\n")
+						sb.WriteString("  prepare(s: auth(Storage) &Account) { self.acct = s; s.storage.save(1, to: /storage/g1); log(\"prepare\") }\n")
+					}
+					switch pre {
+					case "true":
+						sb.WriteString("  pre { K.count == 0: \"pre\" }\n")
+					case "false":
+						sb.WriteString("  pre { K.count == 99: \"pre\" }\n")
+					}
+					if exe {
+						sb.WriteString("  execute { log(K.bump()); K.fire(1)")
+						if prep {
+							sb.WriteString("; self.acct.storage.save(2, to: /storage/g2)")
+						}
+						sb.WriteString(" }\n")
+					}
+					switch post {
+					case "true":
+						sb.WriteString("  post { K.count >= 0: \"post\" }\n")
+					case "false":
+						sb.WriteString("  post { K.count == 99: \"post\" }\n")
+					}
+					sb.WriteString("}\n")
+					name := fmt.Sprintf("prepare=%v,pre=%s,execute=%v,post=%s", prep, pre, exe, post)
+					out = append(out, txGridCase{Name: name, Src: sb.String(), Prepare: prep})
+				}
+			}
+		}
+	}
+	return out
+}
